@@ -55,10 +55,13 @@ def aSet {α} (l : List (Name × α)) (k : Name) (v : α) : List (Name × α) :=
   | [] => [(k, v)]
   | (q, w) :: rest => if q = k then (k, v) :: rest else (q, w) :: aSet rest k v
 
-/-- in-memory catalogs of a `KnowledgeGraph` (persistent schemas only; session schemas are not modelled). -/
+/-- in-memory catalogs of a `KnowledgeGraph`: the rule catalog and the schema catalog, which is the pair
+    (`persistent`, `session`) of schema/catalog.rs:38-44 — `schemas` is the persistent map (the only part `save`
+    writes), `session` the memory-only map that shadows it in `get` / `remove`. -/
 structure Mem where
   rules : RuleCat := []
   schemas : SchemaCat := []
+  session : SchemaCat := []
   deriving DecidableEq, Repr
 
 inductive Doc where
@@ -86,6 +89,9 @@ inductive COp where
   | sreg (r : Name) (s : Schema)                -- register_schema_in
   | supd (r : Name) (s : Schema)                -- register_or_update_schema_in
   | srem (r : Name)                             -- remove_schema_in
+  | ssupd (r : Name) (s : Schema)               -- register_or_update_session_schema_in (memory only)
+  | ssreg (r : Name) (s : Schema)               -- KnowledgeGraph::register_session_schema (memory only)
+  | sclear                                      -- KnowledgeGraph::clear_session_schemas
   | dropRel (n : Name)                          -- drop_relation_in
   deriving DecidableEq, Repr
 
@@ -186,22 +192,42 @@ def step (m : Mem) : COp → Ack × Mem × List (Op Path Doc)
   | .supd r s =>
     if s.bad then (.err, m, []) else
     let sc := aSet m.schemas r s; (.ok, { m with schemas := sc }, saveSchemas sc)
-  -- KnowledgeGraph::remove_schema (2925): saves only when something was removed
+  -- KnowledgeGraph::remove_schema → SchemaCatalog::remove (schema/catalog.rs:140): a session schema shadows the
+  -- persistent one — only the session entry is removed then (the persistent one stays, in memory and on disk);
+  -- the catalog is saved whenever something was removed.
   | .srem r =>
-    match aGet m.schemas r with
-    | none => (.okBool false, m, [])
-    | some _ => let sc := aDel m.schemas r; (.okBool true, { m with schemas := sc }, saveSchemas sc)
-  -- KnowledgeGraph::drop_relation (2564-2594, after the `fix:` commit): the schema is removed and, when there was
-  -- one, the schema catalog saved; then the rule is dropped through `RuleCatalog::drop` (which saves).
+    match aGet m.session r with
+    | some _ => (.okBool true, { m with session := aDel m.session r }, saveSchemas m.schemas)
+    | none =>
+      match aGet m.schemas r with
+      | none => (.okBool false, m, [])
+      | some _ => let sc := aDel m.schemas r; (.okBool true, { m with schemas := sc }, saveSchemas sc)
+  -- register_or_update_session / register_session / clear_session: memory only, nothing is written
+  | .ssupd r s =>
+    if s.bad then (.err, m, []) else (.ok, { m with session := aSet m.session r s }, [])
+  | .ssreg r s =>
+    if s.bad then (.err, m, []) else
+    match aGet m.session r with
+    | some _ => (.err, m, [])
+    | none => (.ok, { m with session := aSet m.session r s }, [])
+  | .sclear => (.ok, { m with session := [] }, [])
+  -- KnowledgeGraph::drop_relation (after the `fix:` commit): `schema_catalog.remove` (session first, else
+  -- persistent) and, when something was removed, the schema catalog is saved; then the rule is dropped through
+  -- `RuleCatalog::drop` (which saves).
   | .dropRel n =>
-    match aGet m.rules n, aGet m.schemas n with
-    | none, none => (.err, m, [])
-    | none, some _ => let sc := aDel m.schemas n; (.ok, { m with schemas := sc }, saveSchemas sc)
-    | some _, none => let r := aDel m.rules n; (.ok, { m with rules := r }, saveRules r)
-    | some _, some _ =>
-      let sc := aDel m.schemas n
+    let hasSchema := (aGet m.session n).isSome || (aGet m.schemas n).isSome
+    match aGet m.rules n with
+    | none =>
+      if !hasSchema then (.err, m, []) else
+      let m1 : Mem := if (aGet m.session n).isSome then { m with session := aDel m.session n }
+                      else { m with schemas := aDel m.schemas n }
+      (.ok, m1, saveSchemas m1.schemas)
+    | some _ =>
       let r := aDel m.rules n
-      (.ok, { rules := r, schemas := sc }, saveSchemas sc ++ saveRules r)
+      if !hasSchema then (.ok, { m with rules := r }, saveRules r) else
+      let m1 : Mem := if (aGet m.session n).isSome then { m with session := aDel m.session n }
+                      else { m with schemas := aDel m.schemas n }
+      (.ok, { m1 with rules := r }, saveSchemas m1.schemas ++ saveRules r)
 
 /-- the JSON codec contract: a file parses iff it holds exactly one complete document. -/
 def parseDoc (f : File Doc) : Option Doc :=
@@ -231,7 +257,7 @@ def loadSchemas (d : Disk) : SchemaCat :=
 def recover (d : Disk) : Option Mem :=
   match loadRules d with
   | none => none
-  | some r => some { rules := r, schemas := loadSchemas d }
+  | some r => some { rules := r, schemas := loadSchemas d, session := [] }
 
 structure St where
   mem : Mem := {}
@@ -296,6 +322,13 @@ def run (st : St) : List HItem → List Out
 def specRun (m : Mem) : List COp → Mem
   | [] => m
   | o :: rest => specRun (step m o).2.1 rest
+
+/-- the reference semantics of a crash-between-operations history: operations act on memory; a restart keeps the
+    acknowledged rules and persistent schemas and forgets the session schemas. -/
+def specRunH (m : Mem) : List HItem → Mem
+  | [] => m
+  | .op o :: rest => specRunH (step m o).2.1 rest
+  | _ :: rest => specRunH { m with session := [] } rest
 
 /-- final state of a history (`none`: some reopen failed). -/
 def finalSt (st : St) : List HItem → Option St
